@@ -302,7 +302,8 @@ Observe(toks, Dev) ==
       bad(k) == \E n \in 1..Len(lv) : AnyList(res[n], {k})
   IN IF ~WellFormed(lv0) THEN [st |-> "undef", rules |-> <<>>]
      ELSE IF bad("undef") THEN [st |-> "undef", rules |-> <<>>]
-     ELSE IF bad("panic") THEN [st |-> "panic", rules |-> <<>>]
+     \* the failed re-parse was a panic (resolve_ref unwrap) until /repo ad192b0; it is a compile error now
+     ELSE IF bad("panic") THEN [st |-> "err", rules |-> <<>>]
      ELSE [st |-> "ok",
            rules |-> Cat(Sq([n \in 1..Len(lv) |->
                         LET np == NPList(res[n], Dev) IN
